@@ -28,30 +28,34 @@ def suite_table(ctx: Ctx) -> SuiteResult:
     from pamiq_core.console.system_status import SystemStatusProvider
     from pamiq_core.thread import ThreadController, ThreadStatus, ThreadStatusesMonitor, ThreadTypes
     res = SuiteResult("status-table", exhaustive=True,
-                      rule="every (shutdown, resume, flags) combination for 0..3 threads on the real "
+                      rule="every (shutdown, resume, per-thread paused flag x exception flag) combination for 0..3 threads on the real "
                            "SystemStatusProvider with real ThreadController/ThreadStatus objects; "
                            "non-trivial = at least one thread")
     types = [ThreadTypes.INFERENCE, ThreadTypes.TRAINING, ThreadTypes.CONTROL]
     lines, impl, cases = [], [], []
     for n in range(0, 4):
         for sd, rs in itertools.product([False, True], repeat=2):
-            for flags in itertools.product([False, True], repeat=n):
+            # per thread: paused flag x exception flag (a crashed thread has acknowledged nothing)
+            for combo in itertools.product([(False, False), (True, False), (False, True), (True, True)], repeat=n):
+                flags = tuple(f for f, _x in combo)
                 ctl = ThreadController()
                 if not rs: ctl.pause()
                 if sd: ctl._shutdown_event.set()       # shutdown() would also set resume: cover all combos
                 sts = []
-                for f in flags:
+                for f, x in combo:
                     st = ThreadStatus()
                     if f: st.pause()
+                    if x: st.exception_raised()
                     sts.append(st)
                 mon = ThreadStatusesMonitor({types[i]: s.read_only for i, s in enumerate(sts)})
                 got = SystemStatusProvider(ctl.read_only, mon).get_current_status().status_name
                 lines.append(f"webq status {int(sd)} {int(rs)} [{','.join(str(int(f)) for f in flags)}]")
                 impl.append(got)
-                cases.append({"shutdown": sd, "resume": rs, "flags": list(flags)})
+                cases.append({"shutdown": sd, "resume": rs, "flags": list(flags), "crashed": [x for _f, x in combo]})
                 res.evaluations += 1
                 res.hit("status:" + got)
-                if n >= 1: res.nontrivial.add((sd, rs, flags))
+                if any(x for _f, x in combo): res.hit("with-crashed-thread")
+                if n >= 1: res.nontrivial.add((sd, rs, combo))
                 if got != table(sd, rs, flags):
                     res.violations.append(Violation(f"c17:table:{got}", f"status {got} for shutdown={sd} "
                                                     f"resume={rs} flags={flags}, expected {table(sd, rs, flags)}",
@@ -82,13 +86,16 @@ def suite_status_walk(ctx: Ctx) -> SuiteResult:
             {types[i]: s.read_only for i, s in enumerate(sts)}))
         walk, answers, lines, impl = [], [], [], []
         for _ in range(ctx.rng.randint(5, 40)):
-            op = ctx.rng.choice(["pause", "resume", "ack0", "ack1", "clr0", "clr1", "shutdown", "query", "query"])
+            op = ctx.rng.choice(["pause", "resume", "ack0", "ack1", "clr0", "clr1", "shutdown", "query", "query",
+                                 "query", "exc0", "exc1"] if walk else ["pause"])
             walk.append(op)
             if ctl.is_shutdown() and op in ("pause", "resume"):
                 continue
             if op == "pause": ctl.pause()
             elif op == "resume": ctl.resume()
             elif op == "shutdown": ctl.shutdown()
+            elif op.startswith("exc"):
+                if ctx.rng.random() < 0.3: sts[int(op[3])].exception_raised()    # a crash, flag left as it is
             elif op.startswith("ack"): sts[int(op[3])].pause()
             elif op.startswith("clr"): sts[int(op[3])].resume()
             else:
@@ -138,12 +145,23 @@ BAD = [("GET", "/api/nope"), ("GET", "/api/pause"), ("POST", "/api/status"), ("D
 
 
 def run_queue_case(case, driver):
+    """The real WebApiServer and the real drain loop `ControlThread.process_received_web_api_commands`
+    (its four actions replaced by recorders): one `drain` op = one control tick's call of it."""
     import logging
     logging.disable(logging.CRITICAL)
     from unittest.mock import MagicMock
     from pamiq_core.console.web_api import WebApiServer
+    from pamiq_core.thread.threads.control import ControlThread
     srv = WebApiServer(MagicMock(), max_queue_size=case["cap"])
-    lines = [f"webq reset {case['cap']}"]
+    ct = ControlThread(MagicMock(), web_api_address=None)
+    ct._web_api_server = srv
+    done: list[str] = []
+    ct.try_pause = lambda *a, **k: done.append("PAUSE") or True
+    ct.resume = lambda *a, **k: done.append("RESUME")
+    ct.save_state = lambda *a, **k: done.append("SAVE_STATE")
+    ct.shutdown = lambda *a, **k: done.append("SHUTDOWN")
+    cap = case["cap"]
+    lines = [f"webq reset {cap}"]
     impl = ["ok"]
     accepted, executed, stopped = [], [], False
     vs = []
@@ -162,18 +180,24 @@ def run_queue_case(case, driver):
             want = 405 if op[2] in ROUTES or op[2] == "/api/status" else 404
             if st != want:
                 vs.append(Violation("c17:http-code", f"{op[1]} {op[2]} answered {st}, expected {want}", {"queue": case}))
-        else:   # one iteration of the control thread's drain loop
-            got = "none"
-            if not stopped and srv.has_commands():
-                c = srv.receive_command().name
-                executed.append(c)
-                got = c
-                stopped = c == "SHUTDOWN"
-            lines.append("webq drain")
-            impl.append(got)
-    # monitor: executed is a prefix of accepted, in order, nothing after SHUTDOWN
-    if executed != accepted[:len(executed)]:
-        vs.append(Violation("c17:order", f"executed {executed} is not a prefix of accepted {accepted}", {"queue": case}))
+        else:   # one control tick: the real drain loop runs until the queue is empty or SHUTDOWN was carried out
+            del done[:]
+            if not stopped:
+                ct.process_received_web_api_commands()
+            executed += done
+            stopped = stopped or "SHUTDOWN" in done
+            # the model drains one command per step: cap + 1 steps cover whatever one tick can find
+            for k in range(cap + 1):
+                lines.append("webq drain")
+                impl.append(done[k] if k < len(done) else "none")
+            if len(done) > cap + 1:
+                vs.append(Violation("c17:order", f"one tick carried out {done} from a queue of size {cap}", {"queue": case}))
+    # monitor: carried out = accepted, in order, each once, up to and including the first SHUTDOWN - and
+    # everything accepted before the last tick has been carried out by then
+    upto = accepted.index("SHUTDOWN") + 1 if "SHUTDOWN" in accepted else len(accepted)
+    if executed != accepted[:len(executed)] or len(executed) > upto:
+        vs.append(Violation("c17:order", f"carried out {executed} is not a prefix of accepted {accepted} "
+                                         f"ending at the first SHUTDOWN", {"queue": case}))
     d = None
     if driver is not None:
         for k, (ln, a, b) in enumerate(zip(lines, impl, driver.batch(lines))):
@@ -185,8 +209,9 @@ def run_queue_case(case, driver):
 
 def suite_queue(ctx: Ctx) -> SuiteResult:
     res = SuiteResult("webq-sequences",
-                      rule="random sequences (3-25 ops) of valid POSTs, invalid requests and drain-loop "
-                           "iterations on the real WebApiServer (in-process ASGI), queue sizes 1..4, bursts "
+                      rule="random sequences (3-25 ops) of valid POSTs, invalid requests and control ticks (the real "
+                           "ControlThread.process_received_web_api_commands with recording actions) "
+                           "on the real WebApiServer (in-process ASGI), queue sizes 1..4, bursts "
                            "beyond the queue size; non-trivial = at least one 503 or a SHUTDOWN followed by "
                            "more requests; distinct by op sequence")
     for _ in range(ctx.n(600, 15000)):
